@@ -187,3 +187,87 @@ Proof.
   rewrite H1 in E1. rewrite H2 in E2. rewrite E1 in E2. inversion E2. split; reflexivity.
 Qed.
 (* and a run that succeeds has quotas at least its cost: the budget is never overdrawn *)
+
+(* ================= Part 2: what a successful run has been charged ================= *)
+From CandidV Require Import proofs.LebProofs.
+
+Definition cle (c c' : cnt) : Prop := fst c <= fst c' /\ snd c <= snd c'.
+Definition Incr {A} (m : M A) : Prop := forall l c, cle c (fst (m l c)).
+Lemma cle_refl c : cle c c. Proof. split; lia. Qed.
+Lemma cle_trans a b c : cle a b -> cle b c -> cle a c. Proof. intros [] []; split; lia. Qed.
+
+Lemma incr_ret {A} (a : A) : Incr (ret a). Proof. intros l c; apply cle_refl. Qed.
+Lemma incr_liftR {A} (r : res A) : Incr (liftR r). Proof. intros l c; apply cle_refl. Qed.
+Lemma incr_failM {A} e : Incr (@failM A e). Proof. intros l c; apply cle_refl. Qed.
+Lemma incr_bind {A B} (m : M A) (k : A -> M B) : Incr m -> (forall a, Incr (k a)) -> Incr (bindM m k).
+Proof.
+  intros Hm Hk l c. unfold bindM. specialize (Hm l c). destruct (m l c) as [c1 r]. cbn [fst] in Hm.
+  destruct r as [a|e| |]; cbn [fst]; try exact Hm. eapply cle_trans; [exact Hm|apply Hk].
+Qed.
+Lemma incr_catch {A} (m h : M A) : Incr m -> Incr h -> Incr (catch_sub m h).
+Proof.
+  intros Hm Hh l c. unfold catch_sub. specialize (Hm l c). destruct (m l c) as [c1 r]. cbn [fst] in Hm.
+  destruct r as [a|e| |]; cbn [fst]; try exact Hm. destruct e; cbn [fst]; try exact Hm.
+  eapply cle_trans; [exact Hm|apply Hh].
+Qed.
+Lemma incr_add_cost u n : Incr (add_cost u n).
+Proof.
+  intros [qd qs] [sd ss]. unfold add_cost, cle. cbn [fst snd].
+  destruct (match qd with Some q => q <? _ | None => false end); cbn [fst snd]; [lia|].
+  destruct u; [destruct (match qs with Some q => q <? _ | None => false end)|]; cbn [fst snd]; lia.
+Qed.
+Lemma incr_checked_mul a b : Incr (checked_mul a b).
+Proof. unfold checked_mul. destruct (a * b <=? usize_max); [apply incr_ret|apply incr_failM]. Qed.
+Lemma incr_tr E t : Incr (tr E t).
+Proof. unfold tr. destruct (trace E t); [apply incr_ret|apply incr_failM]. Qed.
+Lemma incr_unroll1 u E t : Incr (unroll1 u E t).
+Proof. unfold unroll1. destruct (is_var t); [|apply incr_ret]. apply incr_bind; [apply incr_add_cost|intros; apply incr_tr]. Qed.
+Lemma incr_unroll u E e w : Incr (unroll u E e w).
+Proof. unfold unroll. apply incr_bind; [apply incr_unroll1|intros]. apply incr_bind; [apply incr_unroll1|intros; apply incr_ret]. Qed.
+
+Ltac incr_step :=
+  first
+    [ apply incr_ret | apply incr_liftR | apply incr_failM | apply incr_add_cost | apply incr_checked_mul
+    | apply incr_tr | apply incr_unroll | apply incr_unroll1
+    | apply incr_bind; [|intros]
+    | apply incr_catch
+    | assumption ].
+Ltac incr_case :=
+  match goal with
+  | |- Incr (match ?x with _ => _ end) => destruct x
+  | |- Incr (if ?b then _ else _) => destruct b
+  | |- Incr (let (_, _) := ?x in _) => destruct x
+  | |- Incr (match ?x with _ => _ end _) => destruct x
+  | |- Incr (match ?x with _ => _ end _ _ _) => destruct x
+  end.
+Ltac incr := repeat (first [incr_step | incr_case]).
+
+Lemma incr_de_nat u bs : Incr (de_nat u bs). Proof. unfold de_nat. incr. Qed.
+Lemma incr_de_int u w bs : Incr (de_int u w bs). Proof. unfold de_int. incr. Qed.
+Lemma incr_rep {A} (step : list N -> M (A * list N)) :
+  (forall bs, Incr (step bs)) -> forall n bs, Incr (rep n step bs).
+Proof.
+  intros Hs n; induction n as [|n IH]; intros bs; cbn [rep]; [apply incr_ret|].
+  apply incr_bind; [apply Hs|intros]. apply incr_bind; [apply IH|intros; apply incr_ret].
+Qed.
+Lemma incr_de_fields rec E u h lc :
+  (forall u0 h0 lc0 te tw bs, Incr (rec u0 h0 lc0 te tw bs)) ->
+  forall k es ws bs, Incr (de_fields rec E u h lc k es ws bs).
+Proof.
+  intros Hr k; induction k as [|k IH]; intros es ws bs; cbn [de_fields]; [apply incr_liftR|].
+  apply incr_bind; [apply incr_add_cost|intros _].
+  destruct es as [|[i te] es']; destruct ws as [|[j tw] ws'].
+  - apply incr_ret.
+  - incr; try apply Hr; try apply IH.
+  - incr; try apply Hr; try apply IH.
+  - destruct (i =? j); [|destruct (i <? j)]; incr; try apply Hr; try apply IH.
+Qed.
+Theorem incr_de : forall f E u h lc e w bs, Incr (de f E u h lc e w bs).
+Proof.
+  induction f as [|f IH]; intros E u h lc e w bs; [apply incr_liftR|].
+  cbn [de].
+  apply incr_bind; [apply incr_unroll|intros [e' w']].
+  destruct e';
+    repeat first [ apply incr_de_fields; intros | apply incr_rep; intros | apply IH | apply incr_de_nat | apply incr_de_int
+                 | incr_step | incr_case | progress cbv beta ].
+Qed.
